@@ -1661,6 +1661,11 @@ func (e *Engine) lookup(st *State, i *ssa.Lookup) Value {
 	kt := i.X.Type().Underlying().(*types.Map).Key()
 	var res Value = zeroValue(vt)
 	found := Bool(false)
+	type cand struct {
+		eq  *Term
+		val Value
+	}
+	var cands []cand
 	if m.obj != 0 {
 		o := st.obj(m.obj)
 		for j := 0; j < len(o.keys); j++ { // oldest first; newer entries override
@@ -1668,9 +1673,52 @@ func (e *Engine) lookup(st *State, i *ssa.Lookup) Value {
 			if eq.k && eq.c == 0 {
 				continue
 			}
-			res = e.iteValue(eq, o.vals[j], res)
-			found = Or(found, eq)
+			cands = append(cands, cand{eq, o.vals[j]})
 		}
+	}
+	mergeable := true
+	func() {
+		defer func() {
+			if r := recover(); r != nil {
+				if _, ok := r.(unsupported); ok {
+					mergeable = false
+					return
+				}
+				panic(r)
+			}
+		}()
+		for _, c := range cands {
+			res = e.iteValue(c.eq, c.val, res)
+			found = Or(found, c.eq)
+		}
+	}()
+	if !mergeable {
+		// values that cannot be combined by ite (pointers, interfaces): fork on the entry that matches.
+		// Newer entries shadow older ones, so alternative k requires no later candidate to match.
+		conds := make([]*Term, 0, len(cands)+1)
+		none := Bool(true)
+		for k := range cands {
+			c := cands[k].eq
+			for _, later := range cands[k+1:] {
+				c = And(c, Not(later.eq))
+			}
+			conds = append(conds, c)
+			none = And(none, Not(cands[k].eq))
+		}
+		conds = append(conds, none)
+		e.branch(st, conds, func(s2 *State, k int) {
+			var v Value = zeroValue(vt)
+			ok := Bool(false)
+			if k < len(cands) {
+				v, ok = cands[k].val, Bool(true)
+			}
+			if i.CommaOk {
+				s2.top().env[i] = TupleV{v, ok}
+			} else {
+				s2.top().env[i] = v
+			}
+		})
+		panic("unreachable")
 	}
 	if i.CommaOk {
 		return TupleV{res, found}
@@ -1834,6 +1882,13 @@ func (e *Engine) invoke(st *State, fv Value, args []Value, call *ssa.Call, pos t
 		return
 	}
 	name := fn.fn.String()
+	if !e.tolerant && fn.fn.Name() == "String" && len(args) == 1 && isStringMethod(fn.fn) && e.hasSymbolic(st, args[0], 0, map[ObjID]bool{}) {
+		// environment model (DESIGN 3.6): text rendering of a value with symbolic fields is an opaque,
+		// non-empty string; nothing is claimed about rendered text
+		modelsUsed["String() of a value with symbolic fields -> opaque string"]++
+		setRes(StringV{opaque: true, nonEmpty: true})
+		return
+	}
 	if name == "sort.Slice" || name == "sort.SliceStable" {
 		// modelled by a stable insertion sort written in Go (prelude helper vInsertionSort) that calls
 		// the real less closure; the reflect-based swapper is replaced by an engine builtin.
@@ -1910,7 +1965,13 @@ func (e *Engine) builtin(st *State, name string, args []Value, call *ssa.Call, p
 				return x.ln
 			}
 			if x.opaque {
-				return e.internalVar("opaquelen", 64)
+				l := e.internalVar("opaquelen", 64)
+				lo := uint64(0)
+				if x.nonEmpty {
+					lo = 1
+				}
+				e.assume(st, And(Cmp("bvuge", l, BV(64, lo)), Cmp("bvule", l, BV(64, 1<<16))))
+				return l
 			}
 			return BV(64, uint64(len(x.conc)))
 		case MapV:
@@ -2014,14 +2075,14 @@ func (e *Engine) appendOp(st *State, s SliceV, src Value, call *ssa.Call, pos to
 		panic(unsupported{fmt.Sprintf("append src %T", src)})
 	}
 	if es == 1 && (!n.k || !s.ln.k || !s.cap.k) {
-		if _, isByte := et.Underlying().(*types.Basic); isByte {
+		if bt, isB := et.Underlying().(*types.Basic); isB && (bt.Kind() == types.Uint8 || bt.Kind() == types.Int8) {
 			if sv, ok := src.(SliceV); ok {
 				return e.appendBytesSym(st, s, sv, call, pos)
 			}
 		}
 	}
 	if !n.k {
-		ub, ok := e.maxValue(st, n, 64)
+		ub, ok := e.maxValue(st, n, 300)
 		if !ok {
 			panic(unsupported{"append with unbounded symbolic source length at " + e.prog.Fset.Position(pos).String()})
 		}
@@ -2065,7 +2126,7 @@ func (e *Engine) appendOp(st *State, s SliceV, src Value, call *ssa.Call, pos to
 		if n.c == 0 {
 			return s
 		}
-		ub, ok := e.maxValue(st, s.ln, 64)
+		ub, ok := e.maxValue(st, s.ln, 300)
 		if !ok {
 			panic(unsupported{"append to slice of unbounded symbolic length at " + e.prog.Fset.Position(pos).String()})
 		}
@@ -2076,10 +2137,6 @@ func (e *Engine) appendOp(st *State, s SliceV, src Value, call *ssa.Call, pos to
 		e.branch(st, conds, func(s2 *State, k int) {
 			d := s
 			d.ln = BV(64, uint64(k))
-			if !d.cap.k {
-				d.cap = d.ln // conservative: force reallocation semantics? no: unsupported
-				panic(unsupported{"append: symbolic cap at " + e.prog.Fset.Position(pos).String()})
-			}
 			s2.top().env[call] = e.appendOp(s2, d, src, call, pos)
 		})
 		panic("unreachable")
@@ -2334,3 +2391,66 @@ var shortRe = regexp.MustCompile(`[A-Za-z0-9_.\-]+/`)
 
 // shortFnName strips import-path directories: (*github.com/osrg/gobgp/v4/pkg/packet/bgp.X).M -> (*bgp.X).M
 func shortFnName(name string) string { return shortRe.ReplaceAllString(name, "") }
+
+func isStringMethod(fn *ssa.Function) bool {
+	sig := fn.Signature
+	if sig.Recv() == nil || sig.Params().Len() != 0 || sig.Results().Len() != 1 {
+		return false
+	}
+	b, ok := sig.Results().At(0).Type().Underlying().(*types.Basic)
+	if !ok || b.Kind() != types.String {
+		return false
+	}
+	return fn.Pkg != nil && strings.HasPrefix(fn.Pkg.Pkg.Path(), "github.com/osrg/gobgp/")
+}
+
+// hasSymbolic reports whether a value (followed through pointers to a small depth) holds a non-constant scalar.
+func (e *Engine) hasSymbolic(st *State, v Value, depth int, seen map[ObjID]bool) bool {
+	if depth > 6 {
+		return false
+	}
+	visitObj := func(id ObjID) bool {
+		if id == 0 || seen[id] {
+			return false
+		}
+		seen[id] = true
+		o := st.heap[id]
+		if o == nil {
+			return false
+		}
+		if o.arr != nil {
+			return true
+		}
+		for _, x := range o.slots {
+			if e.hasSymbolic(st, x, depth+1, seen) {
+				return true
+			}
+		}
+		return false
+	}
+	switch x := v.(type) {
+	case *Term:
+		return !x.k
+	case Pointer:
+		return (x.off != nil && !x.off.k) || visitObj(x.obj)
+	case SliceV:
+		return !x.ln.k || !x.off.k || visitObj(x.obj)
+	case StringV:
+		return x.opaque || (x.isObj && (!x.ln.k || visitObj(x.obj)))
+	case Iface:
+		return e.hasSymbolic(st, x.val, depth+1, seen)
+	case StructV:
+		for _, f := range x.f {
+			if e.hasSymbolic(st, f, depth+1, seen) {
+				return true
+			}
+		}
+	case ArrayV:
+		for _, f := range x.e {
+			if e.hasSymbolic(st, f, depth+1, seen) {
+				return true
+			}
+		}
+	}
+	return false
+}
